@@ -16,7 +16,7 @@ T2 (every run):
  * both converters on every byte string over {CR, LF, NUL, a} up to length L
    (quick 8, thorough 10) and on random strings over a wider alphabet;
  * every setting x both platforms x every such string up to length L2 (quick
-   7, thorough 8) through eol_lookup + filtered_output_bytes /
+   6, thorough 8) through eol_lookup + filtered_output_bytes /
    filtered_input_file (write, read, read-after-write); the win32 table is
    obtained by executing a private copy of eol.py with sys.platform patched;
    random chunkings of the output side; unknown keys (error kind only);
@@ -36,16 +36,30 @@ LF lose one CR of every "\r\r\n" (classifier: reader is _to_crlf_converter,
 writer is _to_lf_converter, content without NUL contains b"\r\r\n"); theorem
 `crlf_repo_witness`, exact characterisation `roundtrip_iff`.
 
-Mutants this was built against (scratch worktree):
- M1 _to_lf_converter: NUL test dropped (binary converted)
- M2 _UNIX_NL_RE = rb"\n" (lookbehind dropped: CRLF -> CRCRLF)
- M3 table: "crlf" entry writer _to_lf_converter (wrong table entry)
- M4 table: "lf-with-crlf-in-repo" reader _to_lf_converter
- M5 filtered_output_bytes: `reversed(filters)` loop applies filter.reader
- M6 filtered_input_file: readers skipped when len(chunks[0]) is even ... (size dependent)
- M7 _to_crlf_converter: NUL test on the first chunk only (`chunks[0]`)
- M8 ContentFilterAwareSHA1Provider.stat_and_sha1: filters ignored (raw sha)
- H1 harmless: dict entries reordered, converters use bytes.join/`in` rewritten
+Observation (not a violation of C45, counted as `lf-reader-noncanonical`):
+_to_lf_converter is not idempotent ("\r\r\n" -> "\r\n" -> "\n"), so a commit
+under an LF-in-repo setting can store non-canonical text; theorem
+`toLf_not_idempotent_witness`.  The CRLF reader always stores canonical text
+(`toCrlf_canonical`).
+
+Mutants this was built against (scratch worktree, run with the family above
+treated as known; each reported as VIOLATION with the concrete input shown):
+ M1 _to_lf_converter: NUL test dropped              native: b'a\r\n\x00' converted
+ M2 _UNIX_NL_RE = rb"\n" (lookbehind dropped)       CRLF reader stores b'a\r\r\r\n' for b'a\r\r\n'
+ M3 table: "crlf" writer -> _to_lf_converter         crlf must write CRLF: b'a\r\n' -> b'a\n'
+ M4 table: "lf-with-crlf-in-repo" reader -> _to_lf   must store CRLF: b'a\r\n' read as b'a\n'
+ M5 filtered_output_bytes applies filter.reader      crlf must write CRLF
+ M6 content.replace(b"\r\n", b"\n", 3)              crlf: b'\n\n\n\n' read back b'\n\n\n\r\n'
+ M7 _to_crlf_converter tests NUL in chunks[0] only   chunks [b'a', b'\n\x00'] -> b'a\r\n\x00'
+ M8b ContentFilterAwareSHA1Provider.sha1 ignores filters   fresh checkout of b'a\n\ra\r' reports a change
+ M9 filtered_input_file skips the first filter       native: b'a\r\r\n' ... read back differs
+ M10 win32 `_native_output = _to_lf_converter`        native (win32) must write CRLF
+ (M8 the same in stat_and_sha1: not reached by checkout / status / commit /
+  revert / get_file_sha1 - behaviourally equivalent, stays clean)
+ H1 harmless: dict entries reordered + reader loop as comprehension: clean, 22/22
+ H2 harmless but shape-changing (`content` renamed, `find() >= 0`): extraction
+    fails, Generated/C45.lean is invalidated, T1 lemmas recorded as
+    t1_unproved, exhaustive T2 clean: exit 0.
 """
 import ast
 import io
@@ -305,6 +319,8 @@ def _settings(ctx, filters, tables, contents, tag, rng=None):
                     ctx.violation(case, "binary content converted by %s: %r -> tree %r, read %r" % (key, c, disk, rd))
                 if key == "exact" and (disk != c or rd != c):
                     ctx.violation(case, "'exact' changed %r" % c)
+                if (not canonical and not binary and _read(ctx, filters, stack, rd) != rd):
+                    ctx.count("lf-reader-noncanonical")     # observation, see docstring
                 if not binary:
                     # what the setting names promise about the working tree
                     writes_crlf = key in ("crlf", "crlf-with-crlf-in-repo") or (win and key.startswith("native"))
@@ -447,7 +463,7 @@ def run(ctx, L=None, L2=None, nrand=None):
     filters, eolmod, winmod = _mods()
     rng = ctx.rng
     L = L or ctx.pick(8, 10)
-    L2 = L2 or ctx.pick(7, 8)
+    L2 = L2 or ctx.pick(6, 8)
     nrand = nrand or ctx.pick(3000, 20000)
     tables = [(False, eolmod), (True, winmod)]
 
